@@ -12,22 +12,26 @@ import (
 
 var allKinds = []string{"plain", "setglob", "setfs", "csvhdr", "setmodes", "openout", "exit3", "errfunc", "errforin",
 	"cancel", "rand", "srand5", "midfile", "match", "p_io", "p_func",
-	"gl_plain", "gl_dash", "gl_dashvar", "exit_enderr", "exitbegin", "exit_endcancel", "sys", "pipe"}
-var allCfgs = []string{"c0", "c1", "c2", "c3", "c4"}
+	"gl_plain", "gl_dash", "gl_dashvar", "exit_enderr", "exitbegin", "exit_endcancel", "sys", "pipe",
+	"nr_plain", "sr_first", "sr_only", "sr_time", "av_write", "av_del",
+	"rg_close", "rg_eof", "rg_exit", "rg_err", "rg_cancel", "rg_next", "rg_nextfile", "rg_getline"}
+var allCfgs = []string{"c0", "c1", "c2", "c3", "c4", "c5", "c6", "c7"}
 
-// the kinds added for the stdin / exit-status / context families are drawn more often than their share
+// the kinds added after the first 16 (stdin / exit-status / context / range / rand / ARGV+ENVIRON families) are
+// drawn more often than their share
 var newKinds = allKinds[16:]
 
 // chunksOf parses everything a run printed into (key, value) pieces; the one
-// unkeyed piece is the line fp() prints with `print` right after the rand
-// chunk (its text holds no newline except at its end, whatever OFS/ORS are).
+// unkeyed piece is the line fp() prints with `print` right after the empty
+// chunk "pl" (its text holds no newline except at its end, whatever OFS/ORS
+// are).  The value of a rand() ("rand", "rnd") is replaced by the name of the
+// draw of a new interpreter it equals ("seed:idx", or "?").
 //
 // Output that does not have this form is not an error of the recorder: it is
 // what the code did, and the specification must reject it.  The unparsable
 // rest becomes one chunk with the key "?" (no predicted chunk has that key).
-func chunksOf(out []byte) ([]map[string]any, []byte) {
+func chunksOf(out []byte) []map[string]any {
 	res := []map[string]any{} // never nil: an empty output is the JSON array [], not null
-	var randV []byte
 	off := 0
 	for off < len(out) {
 		c, no, ok := parseKeyed(out, off)
@@ -35,10 +39,12 @@ func chunksOf(out []byte) ([]map[string]any, []byte) {
 			res = append(res, map[string]any{"k": "?", "v": hx.FromBytes(out[off:])})
 			break
 		}
+		if c.K == "rand" || c.K == "rnd" {
+			c.V = []byte(drawSymbol(string(c.V)))
+		}
 		res = append(res, map[string]any{"k": c.K, "v": hx.FromBytes(c.V)})
 		off = no
-		if c.K == "rand" {
-			randV = c.V
+		if c.K == "pl" {
 			nl := bytes.IndexByte(out[off:], '\n')
 			if nl < 0 {
 				if off < len(out) {
@@ -50,11 +56,11 @@ func chunksOf(out []byte) ([]map[string]any, []byte) {
 			off += nl + 1
 		}
 	}
-	return res, randV
+	return res
 }
 
 // Record drives n random histories (5-12 operations each: runs of random
-// kinds and configurations -- all 24 kinds x 5 configurations, so Execute,
+// kinds and configurations -- all 38 kinds x 8 configurations, so Execute,
 // ExecuteContext(Background) and contexts that are cancelled / expire after
 // the call mix freely with runs that read standard input through every path,
 // end by exit N + a failing END, or start commands --, ResetVars, ResetRand)
@@ -76,7 +82,6 @@ func Record(seed int64, n int, out string) (int, error) {
 	}
 	w := dirPool.Get().(*workDir)
 	defer dirPool.Put(w)
-	fresh := firstRandOfFresh()
 	for t := 0; t < n; t++ {
 		s, err := newSession()
 		if err != nil {
@@ -104,9 +109,8 @@ func Record(seed int64, n int, out string) (int, error) {
 					// a panic is behaviour of the code too: recorded as an error class no run is predicted to have
 					res.Err = "panic"
 				}
-				chunks, rv := chunksOf(res.Out)
 				emit(map[string]any{"ev": "step", "op": "run", "kind": kind, "cfg": cfg, "tag": tag, "status": res.Status, "err": res.Err,
-					"out": chunks, "randfresh": bytes.Equal(rv, fresh)})
+					"out": chunksOf(res.Out)})
 			}
 		}
 	}
